@@ -66,6 +66,9 @@ METAS = [
 ]
 BODIES = [None, "", "hello\n", "# x\r\n=> y\r\n", b"\x00\x01binary\xff", "ünï\n", b"", "B" * 70000, "é€" * 20000]
 STATUSES = [10, 11, 20, 21, 29, 30, 31, 40, 44, 51, 59, 60, 62, 69]
+ODD_STATUSES = ["20", 20.0, None, True, 20.5, "2x", [20]]
+ODD_METAS = [None, b"text/gemini", 5, "text/\udcff", "a\x00b", "tab\tmeta", ["text/gemini"], "text/gemini\u2028x", "\x7f\x1b[31m"]
+ODD_BODIES = [5, ["x"], bytearray(b"bytearray body"), memoryview(b"memoryview body"), "sur\udcffrogate\n", {"a": 1}, 3.5, ("t",), True]
 BAD_STATUSES = [0, 5, 9, 70, 99, 100, 200, -1, 2]
 EXC_MSGS = ["", "boom", "m" * 1500, "multi\nline", "cr\r\nlf", "ünï", "20 ok\r\n", "lone \udcff surrogate", "nul\x00byte", "tab\tand\x7f", "\u2028line-sep"]
 EXC_NAMES = ["ValueError", "OSError", "KeyError", "UnicodeError", "CustomError", "RuntimeError", "TypeError", "AssertionError", "TimeoutError", "StopIteration",
@@ -81,8 +84,13 @@ def gen_handler_spec(rng):
     spec = {"mode": mode, "delay": delay}
     if r < 0.55:
         spec.update(outcome="value", status=rng.choice(STATUSES), meta=rng.choice(METAS), body=rng.choice(BODIES))
-    elif r < 0.63:
+    elif r < 0.61:
         spec.update(outcome="value", status=rng.choice(BAD_STATUSES), meta=rng.choice(METAS[:3]), body=rng.choice(BODIES[:3]))
+    elif r < 0.66:
+        # a response object whose fields have the wrong type or cannot be encoded
+        which = rng.choice(["status", "meta", "body"])
+        spec.update(outcome="value", status=rng.choice(ODD_STATUSES) if which == "status" else 20, meta=rng.choice(ODD_METAS) if which == "meta" else "text/gemini",
+                    body=rng.choice(ODD_BODIES) if which == "body" else "ok\n", odd=which)
     elif r < 0.92:
         spec.update(outcome="raise", exc=rng.choice(EXC_NAMES), msg=rng.choice(EXC_MSGS))
     elif r < 0.96:
